@@ -601,7 +601,7 @@ func genHistCase(t *rapid.T) HistCase {
 
 func TestHistory(t *testing.T) {
 	pbt.Run(t, pbt.Sub[HistCase]{
-		Name: "history", Quick: 50000, Thorough: 1500000,
+		Name: "history", Quick: 50000, Thorough: 800000,
 		Gen:   genHistCase,
 		Check: checkHistory,
 	})
